@@ -11,30 +11,58 @@ set_option linter.unusedVariables false
 namespace Rpft.CoreSheet
 open Rpft Rpft.Compile Rpft.RefFlow Rpft.Flow
 
-theorem rel_init (rows : List CRow) (noArgs testTypes : List Str) :
+theorem rel_init (rows : List CRow) (noArgs testTypes : List Str) (h : noArgs = RefFlow.noArgsTests) :
     Rel rows 0 0 (initSt noArgs testTypes) {} := by
-  refine ⟨rfl, rfl, rfl, fun j hj => absurd hj (Nat.not_lt_zero j), rfl, rfl, ?_, rfl, ?_, ?_, ?_⟩
+  refine ⟨rfl, rfl, rfl, fun j hj => absurd hj (Nat.not_lt_zero j), rfl, rfl, ?_, rfl, ?_, h, ?_⟩
   · intro p hp; cases hp
-  · intro e he; cases he
   · intro e he; cases he
   · intro j hj; exact absurd hj (Nat.not_lt_zero j)
 
-theorem rows_sim (rows : List CRow) : ∀ (l : List CRow) (k : Nat),
-    (∀ (i : Nat) (c : CRow), l[i]? = some c → rows[k + i]? = some c) → (∀ c ∈ l, plainActionRow c = true) →
+theorem pass1Row_prefix (c : CRow) (hf : rowOk c = true) (st st' : P1) (k : Nat)
+    (h : pass1Row st k (toRRow c) = .ok st') : st.out.reverse <+: st'.out.reverse := by
+  rw [pass1Row_node st k (toRRow c) (rowFacts c hf).kind] at h
+  split at h
+  · cases h
+  · rename_i st1 h1
+    injection h with h; subst h
+    exact addEdges_prefix _ st st1 _ h1
+
+theorem fold_prefix : ∀ (l : List CRow) (k : Nat), (∀ c ∈ l, rowOk c = true) → ∀ (st st' : P1),
+    ((l.map toRRow).zipIdx k).foldlM (fun st (p : RRow × Nat) => pass1Row st p.2 p.1) st = .ok st' →
+    st.out.reverse <+: st'.out.reverse := by
+  intro l
+  induction l with
+  | nil =>
+    intro k _ st st' h
+    simp only [List.map_nil, List.zipIdx_nil, List.foldlM_nil, pure, Except.pure, Except.ok.injEq] at h
+    subst h; exact List.prefix_rfl
+  | cons c l ih =>
+    intro k hf st st' h
+    simp only [List.map_cons, List.zipIdx_cons, List.foldlM_cons, bind, Except.bind] at h
+    cases h1 : pass1Row st k (toRRow c) with
+    | error err => rw [h1] at h; cases h
+    | ok st1 =>
+      rw [h1] at h
+      exact (pass1Row_prefix c (hf c (by simp)) st st1 k h1).trans
+        (ih (k + 1) (fun c' hc' => hf c' (by simp [hc'])) st1 st' h)
+
+theorem rows_sim (rows : List CRow) (outF : List OutEdge) (g : Good rows outF) : ∀ (l : List CRow) (k : Nat),
+    (∀ (i : Nat) (c : CRow), l[i]? = some c → rows[k + i]? = some c) → (∀ c ∈ l, rowOk c = true) →
     ∀ (s : Compile.St) (st st' : P1), Rel rows k k s st →
       ((l.map toRRow).zipIdx k).foldlM (fun st (p : RRow × Nat) => pass1Row st p.2 p.1) st = .ok st' →
+      st'.out.reverse <+: outF →
       wp (steps (l.map toEvent)) s (fun _ s' => Rel rows (k + l.length) (k + l.length) s' st') := by
   intro l
   induction l with
   | nil =>
-    intro k _ _ s st st' h hst
+    intro k _ _ s st st' h hst _
     simp only [List.map_nil, List.zipIdx_nil, List.foldlM_nil, pure, Except.pure, Except.ok.injEq] at hst
     subst hst
     simp only [List.map_nil]
     unfold steps; wp_simp
     simpa using h
   | cons c l ih =>
-    intro k hrows hfr s st st' h hst
+    intro k hrows hfr s st st' h hst hpre
     simp only [List.map_cons, List.zipIdx_cons, List.foldlM_cons, bind, Except.bind] at hst
     cases h1 : pass1Row st k (toRRow c) with
     | error err => rw [h1] at hst; cases hst
@@ -45,11 +73,13 @@ theorem rows_sim (rows : List CRow) : ∀ (l : List CRow) (k : Nat),
       unfold steps
       wp_simp
       have hck : rows[k]? = some c := by have := hrows 0 c (by simp); simpa using this
-      refine wp_mono (row_sim rows k c hck (hfr c (by simp)) s st st1 h h1) ?_
+      have hpre1 : st1.out.reverse <+: outF :=
+        (fold_prefix l (k + 1) (fun c' hc' => hfr c' (by simp [hc'])) st1 st' hst).trans hpre
+      refine wp_mono (row_sim rows outF g k c hck (hfr c (by simp)) s st st1 h h1 hpre1) ?_
       intro _ s1 r1
       have := ih (k + 1) (fun i c' hi => by
         have := hrows (i + 1) c' (by simpa using hi)
-        rw [← this]; congr 1; omega) (fun c' hc' => hfr c' (by simp [hc'])) s1 st1 st' r1 hst
+        rw [← this]; congr 1; omega) (fun c' hc' => hfr c' (by simp [hc'])) s1 st1 st' r1 hst hpre
       refine wp_mono this ?_
       intro _ s2 r2
       have e : k + 1 + l.length = k + (c :: l).length := by simp; omega
@@ -61,7 +91,7 @@ theorem emit_rel {rows : List CRow} {n : Nat} {s : Compile.St} {st : P1} (h : Re
     emit s (s.groups.size + 2) 0 = List.range n := by
   have h1 : ∀ j, j < n → emit s (s.groups.size + 1) (j + 1) = [j] := by
     intro j hj
-    obtain ⟨t, ht⟩ := h.grp j hj
+    obtain ⟨t, _, ht⟩ := h.grp j hj
     simp [emit, ht]
   have e1 : emit s (s.groups.size + 1 + 1) 0 = (List.range' 1 n).flatMap (emit s (s.groups.size + 1)) := by
     simp [emit, h.root]
@@ -171,124 +201,5 @@ theorem absNode_plain_cmp (lvl : ObsLevel) (f : Flow) (n : NodeM) (act : Option 
   simp only [absNode, renderNode, hr, Option.map_none, List.map_map, List.head?_cons, Option.bind_some]
   rw [← ha]
   simp [Function.comp_def]
-
-/-! ### the whole sheet -/
-
-theorem noIdsL_fragment : ∀ (rows : List CRow), (∀ c ∈ rows, plainActionRow c = true) →
-    noIdsL (rows.map toEvent) = true := by
-  intro rows
-  induction rows with
-  | nil => intro _; rfl
-  | cons c l ih =>
-    intro h
-    have hc := h c (by simp)
-    simp only [plainActionRow, Bool.and_eq_true] at hc
-    simp only [List.map_cons, noIdsL, toEvent, Event.noIds, Bool.and_eq_true]
-    exact ⟨hc.1.1.1.2, ih (fun c' hc' => h c' (by simp [hc']))⟩
-
-theorem pass1_state {rows : List RRow} {out : List OutEdge} (h : pass1 rows = .ok out) :
-    ∃ st : P1, (rows.zipIdx 0).foldlM (fun st (p : RRow × Nat) => pass1Row st p.2 p.1) {} = .ok st ∧
-      out = st.out.reverse := by
-  unfold pass1 at h
-  simp only [bind, Except.bind, pure, Except.pure] at h
-  split at h
-  · cases h
-  · rename_i st hst
-    simp only [Except.ok.injEq] at h
-    exact ⟨st, by simpa using hst, h.symm⟩
-
-/-- **F1**: the compiled flow and the reference flow of a sheet of the fragment have the same
-index-resolved abstraction -/
-theorem fragment_abs (lvl : ObsLevel) (noArgs testTypes : List Str) (rows : List CRow) (out : Out) (r : Flow)
-    (hf : inFragment rows = true)
-    (hc : compile noArgs testTypes (rows.map toEvent) = .ok out)
-    (hr : refFlow (rows.map toRRow) = .ok r) :
-    absFlow lvl r = absFlow lvl (renderOut out) := by
-  have hfr : ∀ c ∈ rows, plainActionRow c = true := by
-    simpa [inFragment, List.all_eq_true] using hf
-  obtain ⟨s, hrun, hl, ho⟩ := compile_ok hc
-  obtain ⟨outE, hp1, hrn⟩ := refFlow_nodes _ _ hr
-  obtain ⟨st, hfold, hoe⟩ := pass1_state hp1
-  have hrel := wp_of_run (rows_sim rows rows 0 (fun i c hi => by simpa using hi) hfr _ {} st
-    (rel_init rows noArgs testTypes) hfold) hrun
-  simp only [Nat.zero_add] at hrel
-  -- the compiled nodes
-  have hon : out.nodes = s.nodes.toList := by rw [ho]; exact out_nodes_rel hrel
-  -- their identifiers are pairwise different
-  have hids := noIdsL_fragment rows hfr
-  have a := final_ainv ⟨True, True⟩ ⟨fun _ => okIdsL_of_noIdsL _ hids, fun _ => hids⟩ hrun
-  have hU : ((renderOut out).nodes.map (·.uuid)).Nodup := by
-    have := uids_nodup_of_invented (a.ids trivial) (a.inv trivial) _ (emit_nodup (final_binv hrun) hl)
-    rw [← ho] at this
-    simpa [renderOut, List.map_map, Function.comp_def, renderNode] using this
-  -- the reference nodes
-  have hkinds : ∀ rr ∈ rows.map toRRow, rr.kind.isNode = true := by
-    intro rr hrr
-    simp only [List.mem_map] at hrr
-    obtain ⟨c, hc', rfl⟩ := hrr
-    have := hfr c hc'
-    simp only [plainActionRow, Bool.and_eq_true, Bool.not_eq_true'] at this
-    have hk : (toRRow c).kind = .action := kindOf_action this.1.1.1.1
-    rw [hk]; rfl
-  have hRU : (r.nodes.map (·.uuid)).Nodup := (refFlow_closed _ _ hr).1
-  -- node by node
-  unfold absFlow
-  apply List.ext_getElem?
-  intro j
-  rw [List.getElem?_map, List.getElem?_map, hrn, refNodes_getElem? _ _ hkinds]
-  simp only [renderOut, List.getElem?_map, hon, Array.getElem?_toList]
-  by_cases hj : j < rows.length
-  · obtain ⟨n, c, hn, hcj, hp⟩ := hrel.node j hj
-    simp only [hn, hcj, Option.map_some]
-    congr 1
-    have hfc := hfr c (List.mem_of_getElem? hcj)
-    simp only [plainActionRow, Bool.and_eq_true, Bool.not_eq_true', decide_eq_true_eq] at hfc
-    obtain ⟨⟨⟨⟨hsp, _⟩, _⟩, hact⟩, _⟩ := hfc
-    have hes : outE.filter (·.src = j) = outOf st j := by rw [hoe]; rfl
-    have hbl : ∀ e ∈ outOf st j, e.cond.blank = true := by
-      intro e he
-      exact hrel.blank e (by
-        have := (List.mem_filter.mp he).1
-        simpa using this)
-    rw [hes, mkNode_plain j (toRRow c) (outOf st j) (kindOf_action hsp) hbl, absNode_plain_ref,
-      absNode_plain_cmp lvl _ n c.row.action hp.router hp.acts]
-    have hact' : (toRRow c).act = c.row.action := hact.symm
-    rw [hact']
-    congr 2
-    -- the one destination
-    have hd := hp.dest
-    cases hlast : (outOf st j).getLast? with
-    | none =>
-      rw [hlast] at hd
-      simp only [Option.map_none, DestIs] at hd
-      simp [hd, renderDest, destIdx]
-    | some e =>
-      rw [hlast] at hd
-      simp only [Option.map_some] at hd
-      simp only [Option.bind_some]
-      cases htg : e.tgt with
-      | exit =>
-        rw [htg] at hd
-        simp only [DestIs] at hd
-        rcases hd with hd | hd <;> simp [hd, renderDest, destIdx, tgtDest]
-      | row t =>
-        rw [htg] at hd
-        obtain ⟨m, hm, hdm⟩ := hd
-        have htl : t < rows.length := by
-          have := (Array.getElem?_eq_some_iff.mp hm).1
-          rw [hrel.nsize] at this; exact this
-        have hF : findNode { uuid := [], name := [], nodes := out.nodes.map renderNode } m.uid = some t :=
-          findNode_unique _ t m.uid (renderNode m) (by simp [hon, hm]) rfl hU
-        obtain ⟨ct, hct⟩ : ∃ ct, rows[t]? = some ct := ⟨rows[t], by simp [htl]⟩
-        have hR : findNode r (nodeId t) = some t :=
-          findNode_unique r t (nodeId t) (mkNode t (toRRow ct) (outE.filter (·.src = t))) (by
-            rw [hrn, refNodes_getElem? _ _ hkinds]
-            simp [hct]) (mkNode_uuid _ _ _) hRU
-        rw [hon] at hF
-        simp [hdm, renderDest, destIdx, tgtDest, hF, hR]
-  · have h1 : (rows.map toRRow)[j]? = none := by simp; omega
-    have h2 : s.nodes[j]? = none := by
-      rw [Array.getElem?_eq_none_iff]; rw [hrel.nsize]; omega
-    simp [h1, h2]; omega
 
 end Rpft.CoreSheet
